@@ -99,6 +99,16 @@ const SEED_ROWS: &[&str] = &[
     "(6, 7, '', 0.0)",
     "(7, -3, 'é', 2.25)",
     "(8, 10, 'a', 1e20)",
+    // one row per tricky text of the parameter pool, so that an equality predicate on a bound text has a row to
+    // find (a mis-rendered parameter then changes the result instead of turning "no row" into "no row")
+    "(9, 20, '''''', 3.5)",
+    "(10, 21, '''', 4.5)",
+    "(11, 22, '--', 5.5)",
+    "(12, 23, 'semi;colon', 6.5)",
+    "(13, 24, '''; DROP TABLE keepme; --', 7.5)",
+    "(14, 25, 'a'' OR ''1''=''1', 8.5)",
+    "(15, 26, '/* c */ x', 9.5)",
+    "(17, 28, 'q? $1 ?', 11.5)",
 ];
 
 fn setup(db: &Db) -> Result<(), String> {
